@@ -253,11 +253,18 @@ pub fn str_to_dec(lit: &str) -> Result<(i128, isize), ParseDecimalError> {
     let n_int_digits = lit.accum_coeff(&mut coeff);
     // Check for radix point and parse fractional digits.
     let mut n_frac_digits = 0_usize;
+    // Zeroes following the radix point are not significant if the integral
+    // part is zero.
+    let mut n_frac_leading_zeroes = 0_usize;
     if let Some(c) = lit.first() {
         if *c == b'.' {
             // Safety: safe because of condition above
             unsafe { lit.skip_1() };
-            n_frac_digits = lit.accum_coeff(&mut coeff);
+            if coeff == 0 {
+                n_frac_leading_zeroes = lit.skip_leading_zeroes();
+            }
+            n_frac_digits =
+                n_frac_leading_zeroes + lit.accum_coeff(&mut coeff);
         }
     }
     let n_digits = n_int_digits + n_frac_digits;
@@ -269,8 +276,9 @@ pub fn str_to_dec(lit: &str) -> Result<(i128, isize), ParseDecimalError> {
     // 1. 10^e > i128::MAX for e > 39
     // 2. e = 39 && coeff < 10³⁸ (overflow occured during accumulation)
     // 3. coeff > i128::MAX
-    if n_digits > 39
-        || n_digits == 39
+    let n_signif_digits = n_digits - n_frac_leading_zeroes;
+    if n_signif_digits > 39
+        || n_signif_digits == 39
             && coeff < 100000000000000000000000000000000000000_u128
         || coeff > i128::MAX as u128
     {
@@ -305,9 +313,6 @@ pub fn str_to_dec(lit: &str) -> Result<(i128, isize), ParseDecimalError> {
             }
             if exp_is_negative {
                 exp = -exp;
-            }
-            if n_exp_digits > 2 {
-                return Err(ParseDecimalError::FracDigitLimitExceeded);
             }
         } else {
             return Err(ParseDecimalError::Invalid);
